@@ -281,6 +281,17 @@ impl Compressor for Lz4Compressor {
     ) -> Result<Vec<u8>> {
         #[cfg(feature = "lz4")]
         {
+            // The 4-byte size prefix sizes the output buffer.  An LZ4 block expands at most
+            // 255x (each extra length byte adds 255 bytes), so a larger claim is corrupt:
+            // refuse it instead of allocating whatever the prefix says.
+            if data.len() >= 4 {
+                let claimed = u32::from_le_bytes([data[0], data[1], data[2], data[3]]) as usize;
+                if claimed > (data.len() - 4).saturating_mul(255) {
+                    return Err(ZiporaError::compression(
+                        "LZ4 decompression failed: size prefix exceeds the maximum expansion of the block",
+                    ));
+                }
+            }
             lz4_flex::decompress_size_prepended(data)
                 .map_err(|e| ZiporaError::compression(&format!("LZ4 decompression failed: {}", e)))
         }
